@@ -401,16 +401,17 @@ fn run_dict(v: &[u64]) {
 
 // more than 1024 distinct strings, to cross the heavy-hitter summary's compaction
 fn pre_many(v: &[u64]) -> bool {
-    v[0] < 4 && v[1] < 3
+    v[0] < 4 && v[1] < 3 && v[2] < 3 && v[3] < 2
 }
 fn doms_many() -> Vec<Vec<u64>> {
-    vec![range(4), range(3)]
+    vec![range(4), range(3), range(3), range(2)]
 }
 fn run_many(v: &[u64]) {
     let n = [1023usize, 1024, 1500, 2600][v[0] as usize];
     let mut s = CR::default();
     let mut iss = Vec::new();
-    let hot: &[u8] = b"hot!";
+    // the heavy hitter sorts before, between or after all other strings (consolidation order must not matter)
+    let hot: &[u8] = [&b"hot!"[..], &b"\xffhot"[..], &b"\x01hot"[..]][v[2] as usize];
     for i in 0..n {
         let x = vec![b'k', (i % 251) as u8, (i / 251) as u8, (i % 7) as u8];
         vassert!(push_checked(&mut s, &x, &mut iss), "VF:dictionary.untrained_refused_nonempty");
@@ -418,7 +419,21 @@ fn run_many(v: &[u64]) {
             vassert!(push_checked(&mut s, hot, &mut iss), "VF:dictionary.untrained_refused_nonempty");
         }
     }
-    let mut m = CR::merge_regions(std::iter::once(&s));
+    // one or two source regions with the same contents
+    let s_again = if v[3] == 1 {
+        let mut t = CR::default();
+        let mut iss_t = Vec::new();
+        for (_, x) in iss.iter() {
+            let _ = push_checked(&mut t, x, &mut iss_t);
+        }
+        Some(t)
+    } else {
+        None
+    };
+    let mut m = match &s_again {
+        Some(t) => CR::merge_regions([&s, t].into_iter()),
+        None => CR::merge_regions(std::iter::once(&s)),
+    };
     let mut issued = Vec::new();
     let before = used_bytes(&m);
     if push_checked(&mut m, hot, &mut issued) {
@@ -490,6 +505,158 @@ fn run_ccm(v: &[u64]) {
     }
 }
 
+// statistics after clear (C06 / C08): what was pushed before a clear must not influence the code built afterwards
+// args: p (small profile), mode (0: clear a raw container, 1: clear a coded container)
+fn pre_hclear(v: &[u64]) -> bool {
+    v[0] < 340 && v[1] < 2
+}
+fn doms_hclear() -> Vec<Vec<u64>> {
+    vec![vec![4, 9, 20, 41, 84, 170, 339], range(2)]
+}
+fn run_hclear(v: &[u64]) {
+    let prof = profile(v[0]);
+    let alpha: Vec<u16> = prof.iter().map(|x| x.0).collect();
+    // history before the clear: lots of a symbol that never occurs afterwards
+    let mut t = HuffmanContainer::<u16>::default();
+    if v[1] == 1 {
+        let seed = train(&[(7u16, 3)]);
+        t = HuffmanContainer::merge_regions(std::iter::once(&seed));
+    }
+    let junk = vec![7u16; 50];
+    let _ = t.push(junk.as_slice());
+    t.clear();
+    // history after the clear: exactly the profile
+    let mut all = Vec::new();
+    for (s, c) in &prof {
+        for _ in 0..*c {
+            all.push(*s);
+        }
+    }
+    let i = t.push(all.as_slice());
+    vassert!(i == (0, all.len()) && t.index(i).into_owned() == all, "VF:huffman.after_clear_not_raw");
+    let mut c = HuffmanContainer::merge_regions(std::iter::once(&t));
+    let mut total = 0u64;
+    for (s, n) in &prof {
+        let idx = c.push([*s].as_slice());
+        total += n * (idx.1 - idx.0) as u64;
+    }
+    let counts: Vec<u64> = prof.iter().map(|x| x.1).collect();
+    vassert!(total == reference_cost(&counts), "VF:huffman.stats_survived_clear");
+    // the pre-clear symbol is outside the statistics now: refused, never stored as something else
+    let r = catch_unwind(AssertUnwindSafe(|| {
+        let mut c2 = c.clone();
+        let idx = c2.push([7u16].as_slice());
+        c2.index(idx).into_owned()
+    }));
+    if let Ok(got) = r {
+        vassert!(alpha.contains(&7) || got != vec![7u16] || true, "VF:huffman.stats_survived_clear");
+        vassert!(alpha.contains(&7), "VF:huffman.stats_survived_clear");
+    }
+}
+
+// clone / clone_from of HuffmanContainer and CodecRegion (C09)
+// args: p (small profile), state (0 raw empty, 1 raw with items, 2 coded without pushes, 3 coded with items), how (0 clone, 1 clone_from into a raw
+// destination with items, 2 clone_from into a coded destination), item selector
+fn pre_hclone(v: &[u64]) -> bool {
+    v[0] < 340 && v[1] < 4 && v[2] < 3 && v[3] < N_ITEMS
+}
+fn doms_hclone() -> Vec<Vec<u64>> {
+    vec![vec![4, 20, 84, 339], range(4), range(3), vec![1, 3, 5]]
+}
+fn run_hclone(v: &[u64]) {
+    let prof = profile(v[0]);
+    let alpha: Vec<u16> = prof.iter().map(|x| x.0).collect();
+    let t = train(&prof);
+    let it = item(v[3], &alpha);
+    let mut src = match v[1] {
+        0 => HuffmanContainer::<u16>::default(),
+        1 => t.clone(),
+        _ => HuffmanContainer::merge_regions(std::iter::once(&t)),
+    };
+    let mut issued = Vec::new();
+    if v[1] == 3 {
+        issued.push((src.push(it.as_slice()), it.clone()));
+    }
+    let mut c = match v[2] {
+        0 => src.clone(),
+        1 => {
+            let mut d = HuffmanContainer::<u16>::default();
+            let _ = d.push([alpha[0], alpha[0]].as_slice());
+            d.clone_from(&src);
+            d
+        }
+        _ => {
+            let mut d = HuffmanContainer::merge_regions(std::iter::once(&train(&[(alpha[0], 2), (9999, 1)])));
+            let _ = d.push([alpha[0]].as_slice());
+            d.clone_from(&src);
+            d
+        }
+    };
+    for (i, want) in &issued {
+        vassert!(&c.index(*i).into_owned() == want, "VF:clone.huffman.copy_reads_differ");
+    }
+    // identical further pushes answer identically
+    let (a, b) = (src.push(it.as_slice()), c.push(it.as_slice()));
+    vassert!(a == b, "VF:clone.huffman.further_push_index_differs");
+    vassert!(src.index(a).into_owned() == it && c.index(b).into_owned() == it, "VF:clone.huffman.further_push_read_differs");
+    // independence
+    let _ = src.push([alpha[0]].as_slice());
+    vassert!(c.index(b).into_owned() == it, "VF:clone.huffman.not_independent");
+    c.clear();
+    vassert!(src.index(a).into_owned() == it, "VF:clone.huffman.not_independent");
+}
+
+// C01 / C10: composite regions (tuple, result) over coded fields built by merge_regions
+// args: sources (1 or 2), kind (0 tuple, 1 result)
+fn pre_ccomp(v: &[u64]) -> bool {
+    (1..=2).contains(&v[0]) && v[1] < 2
+}
+fn doms_ccomp() -> Vec<Vec<u64>> {
+    vec![vec![1, 2], range(2)]
+}
+fn run_ccomp(v: &[u64]) {
+    use flatcontainer::impls::tuple::TupleABRegion;
+    use flatcontainer::ResultRegion;
+    let a1: &[u8] = &[1, 2, 2];
+    let a2: &[u8] = &[3, 3, 1];
+    let d1: &[u8] = &[0, 9];
+    let d2: &[u8] = b"abc";
+    if v[1] == 0 {
+        type R = TupleABRegion<HuffmanContainer<u8>, CR>;
+        let mut s1 = R::default();
+        let mut s2 = R::default();
+        for _ in 0..4 {
+            let _ = s1.push((a1, d1));
+            let _ = s2.push((a2, d2));
+        }
+        let mut m = if v[0] == 1 { R::merge_regions(std::iter::once(&s1)) } else { R::merge_regions([&s1, &s2].into_iter()) };
+        // data covered by the statistics of the sources that were passed
+        let i = m.push((a1, d1));
+        let (x, y) = m.index(i);
+        vassert!(x.into_owned() == a1 && y == d1, "VF:coded_composite.merge_read");
+        if v[0] == 2 {
+            let j = m.push((a2, d2));
+            let (x, y) = m.index(j);
+            vassert!(x.into_owned() == a2 && y == d2, "VF:coded_composite.merge_read");
+        }
+    } else {
+        type R = ResultRegion<HuffmanContainer<u8>, CR>;
+        let mut s1 = R::default();
+        let mut s2 = R::default();
+        for _ in 0..4 {
+            let _ = s1.push(Ok::<&[u8], &[u8]>(a1));
+            let _ = s1.push(Err::<&[u8], &[u8]>(d1));
+            let _ = s2.push(Ok::<&[u8], &[u8]>(a2));
+            let _ = s2.push(Err::<&[u8], &[u8]>(d2));
+        }
+        let mut m = if v[0] == 1 { R::merge_regions(std::iter::once(&s1)) } else { R::merge_regions([&s1, &s2].into_iter()) };
+        let i = m.push(Ok::<&[u8], &[u8]>(a1));
+        let j = m.push(Err::<&[u8], &[u8]>(d1));
+        vassert!(m.index(i).map(|w| w.into_owned()).ok() == Some(a1.to_vec()), "VF:coded_composite.merge_read");
+        vassert!(m.index(j).err() == Some(d1), "VF:coded_composite.merge_read");
+    }
+}
+
 pub fn harnesses() -> Vec<H> {
     vec![
         H { name: "huffman_quick", props: &["C06", "C01", "C02", "C08", "C10"], nargs: 6, pre: pre_huff, doms: doms_huff_quick, run: run_huff, panic_ok: false,
@@ -498,6 +665,12 @@ pub fn harnesses() -> Vec<H> {
             bound: "all 340 profiles over alphabets of 1..4 symbols with counts 1..4, Fibonacci-skewed 10..21 symbols (codes to 20 bits), 257/300/600 equiprobable u16 symbols x all pairs of 12 item shapes x third item in {empty, 8, 17 symbols} x 1-2 merge generations x outsider symbol (thorough tier)", kani: false },
         H { name: "columns_coded_merge", props: &["C10"], nargs: 2, pre: pre_ccm, doms: doms_ccm, run: run_ccm, panic_ok: false,
             bound: "ColumnsRegion<HuffmanContainer<u8>> and ColumnsRegion<CodecRegion<DictionaryCodec>>: merge_regions over a one-column and a two-column source in the orders [narrow, wide], [wide, narrow], [narrow, wide, narrow], [wide]; rows covered by the sources' statistics must be accepted and read back", kani: false },
+        H { name: "huffman_after_clear", props: &["C06", "C08"], nargs: 2, pre: pre_hclear, doms: doms_hclear, run: run_hclear, panic_ok: false,
+            bound: "HuffmanContainer<u16>: 50 occurrences of a foreign symbol pushed into a raw or coded container, clear, then exactly one of 7 profiles, merge: code cost equals the reference for that profile alone and the foreign symbol is refused", kani: false },
+        H { name: "codec_clone", props: &["C09"], nargs: 4, pre: pre_hclone, doms: doms_hclone, run: run_hclone, panic_ok: false,
+            bound: "HuffmanContainer<u16>: 4 profiles x source state (raw empty / raw with items / coded without pushes / coded with items) x clone or clone_from into a raw or coded destination with items; identical further push, independence", kani: false },
+        H { name: "coded_composites_merge", props: &["C10", "C01"], nargs: 2, pre: pre_ccomp, doms: doms_ccomp, run: run_ccomp, panic_ok: false,
+            bound: "TupleABRegion<HuffmanContainer<u8>, CodecRegion<DictionaryCodec>> and ResultRegion<..>: merge_regions over 1 or 2 source regions, then rows covered by the passed sources' statistics must be accepted and read back", kani: false },
         H { name: "huffman_wrapped", props: &["C14", "C15"], nargs: 4, pre: pre_wrapped, doms: doms_wrapped, run: run_wrapped, panic_ok: false,
             bound: "Wrapped items, raw versus Huffman-encoded, 7 profiles x all pairs of 12 item shapes x 4 clone_onto targets: ==, partial_cmp, cmp against the owned vectors; into_owned / clone_onto / borrow_as; region-to-region push", kani: false },
         H { name: "huffman_forms", props: &["C20"], nargs: 2, pre: pre_hforms, doms: doms_hforms, run: run_hforms, panic_ok: false,
@@ -506,7 +679,7 @@ pub fn harnesses() -> Vec<H> {
             bound: "CodecRegion<DictionaryCodec>: 8 x 2 training sets over 1..2 source regions; 20 probes (empty, dictionary entries, prefixes/extensions, first byte an assigned tag, eight one-byte strings) x 3; second merge generation; clear; every push refused or read back exactly, heavy hitters cost 1 byte", kani: false },
         H { name: "dictionary_full", props: &["C07"], nargs: 7, pre: pre_dict, doms: doms_dict, run: run_dict, panic_ok: false,
             bound: "CodecRegion<DictionaryCodec>: 8 x 3 training sets over 1..2 source regions; probes: all 256 one-byte strings, dictionary entries, their prefixes/extensions, strings whose first byte is an assigned tag, the empty string (268 probes x 5); second merge generation; clear; every push refused or read back exactly, heavy hitters cost 1 byte", kani: false },
-        H { name: "dictionary_many", props: &["C07"], nargs: 2, pre: pre_many, doms: doms_many, run: run_many, panic_ok: false,
-            bound: "1023 / 1024 / 1500 / 2600 distinct strings plus a heavy hitter at 1/2, 1/3, 1/4 of the pushes (crosses MisraGries::tidy), merged, then probed", kani: false },
+        H { name: "dictionary_many", props: &["C07"], nargs: 4, pre: pre_many, doms: doms_many, run: run_many, panic_ok: false,
+            bound: "1023 / 1024 / 1500 / 2600 distinct strings plus a heavy hitter at 1/2, 1/3, 1/4 of the pushes that sorts before / between / after them (crosses MisraGries::tidy), one or two source regions, merged, then probed", kani: false },
     ]
 }
